@@ -6,6 +6,7 @@ import (
 	"fmt"
 	"io"
 	"math/rand"
+	"sort"
 	"strings"
 	"time"
 
@@ -297,6 +298,29 @@ func genPlan(rng *rand.Rand) hdrPlan {
 	}
 	for i, n := 0, rng.Intn(4); i < n; i++ {
 		p.Sets = append(p.Sets, fix(genMD(rng, 4, true)))
+	}
+	// every other plan with two or more SetHeader calls repeats a key of the first call in the last one
+	// (the one that becomes SendHeader in the send / grpcapi modes): the values keep the order of the calls
+	if len(p.Sets) >= 2 && rng.Intn(2) == 0 {
+		keys := make([]string, 0, len(p.Sets[0]))
+		for k := range p.Sets[0] {
+			keys = append(keys, k)
+		}
+		sort.Strings(keys)
+		if len(keys) > 0 {
+			k := keys[rng.Intn(len(keys))]
+			last := p.Sets[len(p.Sets)-1]
+			for k2 := range last {
+				if strings.EqualFold(k2, k) {
+					delete(last, k2)
+				}
+			}
+			if strings.HasSuffix(strings.ToLower(k), "-bin") {
+				last[k] = []string{genBinValue(rng), genBinValue(rng)}
+			} else {
+				last[k] = []string{genTextValue(rng), genTextValue(rng)}
+			}
+		}
 	}
 	for i, n := 0, rng.Intn(3); i < n; i++ {
 		p.Trailers = append(p.Trailers, fix(genMD(rng, 4, true)))
